@@ -1363,9 +1363,46 @@ func (f *Frugal) validateServices(includes map[string]*Frugal) error {
 		if err := f.validateServiceTypes(service, includes); err != nil {
 			return err
 		}
+		if err := f.validateServiceExtends(service); err != nil {
+			return err
+		}
 		if err := service.validate(); err != nil {
 			return err
 		}
+	}
+	return nil
+}
+
+// validateServiceExtends ensures the chain of extended services exists and
+// does not lead back to the service itself.
+func (f *Frugal) validateServiceExtends(service *Service) error {
+	seen := map[*Service]bool{service: true}
+	owner, current := f, service
+	for current.Extends != "" {
+		baseOwner := owner
+		if include := current.ExtendsInclude(); include != "" {
+			parsed, ok := owner.ParsedIncludes[include]
+			if !ok {
+				return fmt.Errorf("Service %s extends %s, include %s not found",
+					current.Name, current.Extends, include)
+			}
+			baseOwner = parsed
+		}
+		var base *Service
+		for _, candidate := range baseOwner.Services {
+			if candidate.Name == current.ExtendsService() {
+				base = candidate
+			}
+		}
+		if base == nil {
+			return fmt.Errorf("Service %s extends %s, which doesn't exist",
+				current.Name, current.Extends)
+		}
+		if seen[base] {
+			return fmt.Errorf("Service %s extends itself", service.Name)
+		}
+		seen[base] = true
+		owner, current = baseOwner, base
 	}
 	return nil
 }
